@@ -29,13 +29,14 @@ def install():
         orig = cls.__call__
         ORIG[(cls, "__call__")] = orig
 
-        def __call__(self, rhs, initial_time, initial_state, constants, timestep):
+        def __call__(self, rhs, initial_time, initial_state, constants, timestep, *a, **kw):
+            # extra positional / keyword arguments are handed through untouched: the seam must not depend on the exact signature
             w = CURRENT
             if w is None:
-                return orig(self, rhs, initial_time, initial_state, constants, timestep)
+                return orig(self, rhs, initial_time, initial_state, constants, timestep, *a, **kw)
             rec = w.begin_icall(self, kind, initial_time, initial_state, timestep)
             try:
-                out = orig(self, rhs, initial_time, initial_state, constants, timestep)
+                out = orig(self, rhs, initial_time, initial_state, constants, timestep, *a, **kw)
             except BaseException as e:
                 w.end_icall(rec, self, None, e)
                 raise
@@ -48,12 +49,12 @@ def install():
         orig = cls.step
         ORIG[(cls, "step")] = orig
 
-        def step(self, rhs, initial_time, initial_state, constants, timestep):
+        def step(self, rhs, initial_time, initial_state, constants, timestep, *a, **kw):
             w = CURRENT
             if w is None:
-                return orig(self, rhs, initial_time, initial_state, constants, timestep)
+                return orig(self, rhs, initial_time, initial_state, constants, timestep, *a, **kw)
             att = w.begin_attempt(self, timestep)
-            out = orig(self, rhs, initial_time, initial_state, constants, timestep)
+            out = orig(self, rhs, initial_time, initial_state, constants, timestep, *a, **kw)
             w.end_attempt(att, self)
             return out
         step.__wrapped__ = orig
@@ -106,8 +107,8 @@ def install():
     orig_steps = getattr(DS.OdeSystem, name_steps)
     ORIG[name_steps] = orig_steps
 
-    def alloc_space_steps(self, tf):
-        n = orig_steps(self, tf)
+    def alloc_space_steps(self, tf, *a, **kw):
+        n = orig_steps(self, tf, *a, **kw)
         w = CURRENT
         if w is not None and w.alloc_cap is not None:
             w.probe("alloc_cap_applied")
@@ -119,16 +120,16 @@ def install():
     orig_alloc = getattr(DS.OdeSystem, name_alloc)
     ORIG[name_alloc] = orig_alloc
 
-    def allocate_soln_space(self, num_units):
+    def allocate_soln_space(self, num_units, *a, **kw):
         w = CURRENT
         if w is None:
-            return orig_alloc(self, num_units)
+            return orig_alloc(self, num_units, *a, **kw)
         w.alloc_depth += 1
         if w.alloc_depth == 1:
             w.alloc_calls += 1
             w.arm_alloc_fault()
         try:
-            return orig_alloc(self, num_units)
+            return orig_alloc(self, num_units, *a, **kw)
         finally:
             w.alloc_depth -= 1
     setattr(DS.OdeSystem, name_alloc, allocate_soln_space)
